@@ -572,7 +572,7 @@ class OpenDocument:
 
         if document.folder != u"" or document is self:
             raise ValueError(u"The document is already attached (as %s)" % document.folder)
-        used = [c.folder[len(self.folder)+1:] for c in self.childobjects]
+        used = [f[len(self.folder)+1:] for f in self._foldersBelow()]
         if objectname is None:
             n = len(self.childobjects) + 1
             while u"Object %d" % n in used:
@@ -584,6 +584,12 @@ class OpenDocument:
         self.childobjects.append(document)
         document._setFolder(u"%s/%s" % (self.folder, objectname))
         return u".%s" % document.folder
+
+    def _foldersBelow(self):
+        """
+        @return the folders of all objects below this document, at any depth
+        """
+        return [f for c in self.childobjects for f in [c.folder] + c._foldersBelow()]
 
     def _setFolder(self, folder):
         """
